@@ -461,6 +461,7 @@ def run(tier: str, only=None) -> core.Result:
     if not only or "stdio" in only:
         out = explorer.explore(RUN_STDIO, scfgs, fidelity=True)
         sched.absorb(res, "stdio-carrier", RUN_STDIO, out, scfgs)
+        sched.debug_pass(res, "stdio-carrier", RUN_STDIO, scfgs)
     import itertools as _it
     prcfgs = [{"ids": list(c)} for n in (2, 3) for c in _it.combinations(PR_IDS, n) if not ({"int", "digits"} <= set(c))]
     if not only or "per-request" in only:
